@@ -1,6 +1,5 @@
 SPECIFICATION Spec
 CONSTANTS
-  MaxRich <- Unlimited
   MaxStmts = 4
   MaxDepth = 3
   MaxUnits = 1
@@ -24,6 +23,9 @@ CONSTANTS
   MinEdits = 0
   Randomised = FALSE
   DumpMod = 1
+  NRepl = 17
+  RichOnly = FALSE
+  MaxRich <- Unlimited
   NCmtCls = 8
   NCppForms = 18
   NGarb = 3
